@@ -108,8 +108,18 @@ def check_case(case):
         if e in got:
             edges[e] = got[e]
     if set(edges) != set(got):
-        # edge sets differ: C03 reports that; the longest chain is not comparable
-        return {"nontrivial": False, "classes": ["skipped-edge-set-disagreement(C03)"]}
+        # the graph OSACA built differs from the read-after-write relation (C03 reports that): the equality clauses
+        # are not comparable, but the critical path must still not be shorter than a dependency chain of the
+        # relation - lower bound with the smallest admissible weight per edge, pairs of uncertain status left out
+        low = {e: min(ws) for e, ws in E.items() if e not in unc}
+        cp = guard(dg.get_critical_path, what="get_critical_path")
+        total = sum(float(x.latency_cp) for x in cp)
+        ref, _, _ = ref_cp_from_graph(nodes_lat, low, {})
+        if total < ref - 1e-9:
+            raise Violation("cp-under:%s:graph-differs" % case["isa"], "reported critical path is shorter than a chain "
+                            "of the read-after-write relation (the dependency graph itself lacks an edge of it)",
+                            total, ref)
+        return {"nontrivial": False, "classes": ["edge-set-disagreement(C03):lower-bound-only"]}
     loadnode = {i: inf["load"] for i, inf in enumerate(info) if inf is not None and inf["load"] is not None
                 and inf["has_load_node"]}
     total, ref, single, load_head, n = check_cp(kernel, dg, nodes_lat, edges, loadnode,
